@@ -1,8 +1,9 @@
 #!/bin/bash
 # usage: sweep.sh "<seeds>" [tier] [props...]   runs checks over several seeds, prints one line per run
 seeds="$1"; tier="${2:-quick}"; shift; shift
-props="$@"; [ -z "$props" ] && props=$(cd /verif && /venv/bin/python -c "import checks_table as c; print(' '.join(sorted(c.CHECKS)))")
-cd /verif
+here="$(cd "$(dirname "$0")/.." && pwd)"   # the checkout this script belongs to (a vp run snapshot uses its own copy)
+props="$@"; [ -z "$props" ] && props=$(cd "$here" && /venv/bin/python -c "import checks_table as c; print(' '.join(sorted(c.CHECKS)))")
+cd "$here"
 for s in $seeds; do for p in $props; do
   out=$(VERIF_SEED=$s ./check $p --tier $tier 2>&1); rc=$?
   echo "seed=$s $p rc=$rc $(echo "$out" | grep -E "^$p tier" | sed -E 's/.*(cases=[0-9]+).*(violations=[0-9]+ known=[0-9]+ inconclusive=[0-9]+).*(wall=[0-9.]+s)/\1 \2 \3/')"
